@@ -75,6 +75,8 @@ CHECK_DEADLOCK FALSE
             a += ["--conc", sp_conc]
         if k == 2:
             a += ["--fullpool"]
+        if k == 3:
+            a += ["--tickrace", "1500" if quick else "8000"]
         # block-size boundaries (the pool's internal write batches, the per-block limit)
         size_sets = ["1,2,99,100,101", "199,200", "201,250", "150,300"] if quick else \
                     ["1,2,3,50,99,100,101", "149,150,151", "198,199", "200", "201,202", "250,299", "300,301", "400", "64,128,256", "32,512"]
@@ -104,7 +106,7 @@ CHECK_DEADLOCK FALSE
                         samples.append(e)
                 elif e["event"] in ("Pack", "UnMark") and len(samples) < 4 and len(e["state"]["pending"]) < 12:
                     samples.append(e)
-    for need in ("Add", "Pack", "Mark", "UnMark", "Conc", "FullPoolReorg"):
+    for need in ("Add", "Pack", "Mark", "UnMark", "Conc", "FullPoolReorg", "Tick", "TickRace"):
         if kinds[need] == 0:
             raise Inconclusive("vacuity: no %s event" % need)
     if gates["add.checked"] == 0 or (gates["mark.written"] == 0 and gates["blocked"] == 0):
@@ -167,5 +169,5 @@ CHECK_DEADLOCK FALSE
         "is enumerated by TLC and replayed with the gate hook; schedules of three or more overlapping calls and the goroutine schedules the Go runtime "
         "would produce on its own are not explored",
         "reorgs with a process death before every store write (real chain, real pool, fresh process restart) reuse C05's driver and monitor; only the pool clauses (executed set = transactions of the canonical chain, transactions of removed blocks pending) are verdicts of C17",
-        "transaction expiry (growRing, one-minute ticker) does not fire within a run",
+        "transaction expiry: the ageing pass of the pending container (growRing, normally on a one-minute ticker) is run on request (hook export VerifPoolTick): sequentially as an operation of the histories (a transaction is dropped at its fifth tick), and concurrently with bookings followed by a reorg (tick-race rounds; the goroutine schedule inside a pass is the runtime's, so this family is a best-effort search, not an enumeration)",
     ])
